@@ -21,7 +21,7 @@ struct TDesc {
     void* (*dyn)(PDU*); void* (*find)(PDU*); void* (*cast)(PDU*); bool (*rfind_throws)(PDU*);
     void* (*dyn_cached)(PDU*);   // for T = PDUCacher<X>: dynamic_cast<X*>
 };
-struct KDesc { const std::type_info* ti = nullptr; std::function<PDU*(const u8*, u32)> from_bytes; std::string name; std::function<PDU*()> make; void* (*find_own)(PDU*); void* (*cast_own)(PDU*); void* (*dyn_own)(PDU*); bool cacher; std::function<PDU*()> make_cached; };
+struct KDesc { const std::type_info* ti = nullptr; std::function<PDU*(const u8*, u32)> from_bytes; std::string name; std::function<PDU*()> make; void* (*find_own)(PDU*); void* (*cast_own)(PDU*); void* (*dyn_own)(PDU*); bool cacher; std::function<PDU*()> make_cached; std::function<PDU*()> make_stacked; };
 static std::vector<TDesc> Ts; static std::vector<KDesc> Ks; static std::vector<std::string> abstract_or_unmakeable;
 
 template <class T> void add_T(const char* name, std::true_type) {
@@ -54,6 +54,8 @@ template <class K, bool ok> struct CacherOf { static void add(const std::string&
     KDesc d; d.name = "PDUCacher<" + kname + ">"; d.cacher = true;
     d.make = [defctor]() -> PDU* { PDU* in = Maker<K>::go(defctor); if (!in) return nullptr; K* t = dynamic_cast<K*>(in); PDU* r = new PDUCacher<K>(*t); delete in; return r; };
     d.make_cached = [defctor]() -> PDU* { return Maker<K>::go(defctor); };
+    // a wrapper around a packet with layers below the wrapped one: those layers belong to the wrapped object, the wrapper itself is none of them
+    d.make_stacked = [defctor]() -> PDU* { PDU* in = Maker<K>::go(defctor); if (!in) return nullptr; if (!in->inner_pdu()) in->inner_pdu(IP("1.2.3.4", "4.3.2.1") / UDP(53, 1025) / RawPDU("payload")); K* t = dynamic_cast<K*>(in); PDU* r = new PDUCacher<K>(*t); delete in; return r; };
     add_own<PDUCacher<K>>(d, std::true_type());
     Ks.push_back(d);
     add_T<PDUCacher<K>>(d.name.c_str(), std::true_type());
@@ -82,9 +84,13 @@ static void build_tables() {
 #undef VF_GEN_CLASSES
 }
 
+static void run_K_obj(const KDesc& kd, PDU* k, const std::string& variant);
 static void run_K(const KDesc& kd) {
-    describe_case("K=" + kd.name);
-    PDU* k = kd.make();
+    run_K_obj(kd, kd.make(), "");
+    if (kd.cacher && kd.make_stacked) { PDU* s = kd.make_stacked(); if (s) { cnt("stacked_cacher_objects"); run_K_obj(kd, s, " (wrapping a packet with IP/UDP/RawPDU below)"); } }
+}
+static void run_K_obj(const KDesc& kd, PDU* k, const std::string& variant) {
+    describe_case("K=" + kd.name + variant);
     if (!k) {
         if (!kd.cacher) { cnt("unconstructible"); violation("harness/unconstructible/K=" + kd.name, "the monitor cannot construct this concrete class (protected/odd constructor); add a Maker"); }
         return;
@@ -160,7 +166,7 @@ static void run_objects(long idx, Rng& r) {
         Bytes base; try { if (!dynamic_cast<IP*>(k.get())) base = k->serialize(); } catch (...) {}
         if (dynamic_cast<IP*>(k.get())) { IP ip("1.2.3.4", "4.3.2.1"); base = ip.serialize(); }
         describe_case("objects: first-octet sweep K=" + kd.name);
-        for (u32 pos = 0; pos < 4 && pos < base.size(); ++pos) for (u32 v = 0; v < 256; ++v) {
+        for (u32 pos = 0; pos < 8 && pos < base.size(); ++pos) for (u32 v = 0; v < 256; ++v) {
             Bytes b = base; b[pos] = (u8)v; if (b.size() < 64) b.resize(b.size() + 32, 0);
             std::unique_ptr<PDU> p; try { ExactBuf eb(b); p.reset(kd.from_bytes(eb.data(), (u32)b.size())); } catch (const exception_base&) { cnt("first_octet_rejected"); continue; }
             if (!p) break;
